@@ -167,6 +167,8 @@ var templateNames = []string{
 // replacement is a user template for each name: it renders what the documentation of the data
 // (markdown.go) calls for, plus the marker attribute data-ov="<name>" on its root element(s).
 // raw_html has no element of its own, so its replacement wraps the raw HTML in a marked <span>.
+// href/src are written as interpolated static attributes: a bound attribute (:href) with an empty
+// value is omitted by vuego, and a destination may be empty.
 var replacement = map[string]string{
 	"autolink":   `<a data-ov="autolink" :href="href">{{ label }}</a>`,
 	"blockquote": `<blockquote data-ov="blockquote" v-html="content"></blockquote>`,
@@ -177,8 +179,8 @@ var replacement = map[string]string{
 	"heading": "<h1 data-ov=\"heading\" v-if=\"level == 1\" v-html=\"content\"></h1>\n<h2 data-ov=\"heading\" v-else-if=\"level == 2\" v-html=\"content\"></h2>\n" +
 		"<h3 data-ov=\"heading\" v-else-if=\"level == 3\" v-html=\"content\"></h3>\n<h4 data-ov=\"heading\" v-else-if=\"level == 4\" v-html=\"content\"></h4>\n" +
 		"<h5 data-ov=\"heading\" v-else-if=\"level == 5\" v-html=\"content\"></h5>\n<h6 data-ov=\"heading\" v-else v-html=\"content\"></h6>",
-	"image":         `<img data-ov="image" :src="src" :alt="alt" :title="title">`,
-	"link":          `<a data-ov="link" :href="href" :title="title" v-html="content"></a>`,
+	"image":         `<img data-ov="image" src="{{ src }}" :alt="alt" :title="title">`,
+	"link":          `<a data-ov="link" href="{{ href }}" :title="title" v-html="content"></a>`,
 	"list":          "<ol data-ov=\"list\" v-if=\"ordered\" :start=\"start\" v-html=\"content\"></ol>\n<ul data-ov=\"list\" v-else v-html=\"content\"></ul>",
 	"list_item":     `<li data-ov="list_item" v-html="content"></li>`,
 	"paragraph":     `<p data-ov="paragraph" v-html="content"></p>`,
